@@ -71,6 +71,8 @@ SNIPPETS = [
     "(remember! (let ((b (make-bytevector {n} 7))) (garbage {m}) (verif-gc) (list b (bytevector-u8-ref b 0))))",
 ]
 
+HEAP_SIZES = ["48k", "64k", "100k", "160k", "256k", "512k", "1M"]
+
 EPILOGUE = """(verif-gc)
 (display (sum-tree keep)) (newline)
 (display (length keep)) (newline)
@@ -345,15 +347,123 @@ def inner(ctx, d, exe, genfacts, nprog, nsnip, only_noimport=False):
     return ncoll
 
 
+# ------------------------------------------------------------------------------------------ inner, hook dumps
+def parse_hook_dumps(path):
+    """CHIBI_VERIF_TRACE/DUMP records of gc.c (H3): returns list of {phase: (root, {addr: (tag, marked, slots, saves)})}"""
+    colls, cur, phase, objs, root, hi, nx = [], None, None, None, None, 0, 0
+
+    def ref(tok):
+        if tok == "i" or tok == "x":
+            return 1
+        h, _, o = tok.partition(":")
+        return ((int(h) + 1) << 40) + int(o)
+    for line in open(path):
+        c = line[0]
+        if c == "D":
+            f = line.split()
+            phase = f[1]
+            if phase == "pre":
+                cur = {}
+                colls.append(cur)
+            objs = {}
+        elif c == "R" and phase:
+            root = ref(line.split()[1])
+        elif c == "H" and phase:
+            hi = int(line.split()[1])
+        elif c == "O" and phase:
+            f = line.split()
+            off, tag, marked = int(f[1]), int(f[3]), int(f[4])
+            rest = f[6:]
+            sect, slots, saves = "S", [], []
+            for t in rest:
+                if t in ("S", "W", "X", "C"):
+                    sect = t
+                elif sect == "S":
+                    slots.append(ref(t))
+                    nx += t == "x"
+                elif sect == "C":
+                    saves.append(ref(t))
+            objs[((hi + 1) << 40) + off] = (tag, marked, slots, saves, sect == "C" or "C" in rest)
+        elif c == "E" and phase:
+            if line.strip() == "E":
+                cur[phase] = (root, objs)
+                phase = None if phase == "post" else phase
+    return [c for c in colls if "pre" in c and "marked" in c and "post" in c], nx
+
+
+def inner_hook(ctx, d, exe, ndumps):
+    """collections forced by the H2 hook at arbitrary allocation points of a running program (real
+    sexp_gc, real C-stack roots), dumped by the H3 hook at slot level; replayed by the same extracted
+    [mark] on a synthetic raw encoding: every object becomes [header; n; slot_1 .. slot_n] of a
+    vector-like type (contexts: a second tag with their registered locals)"""
+    emb = B.cc_embed(d, HARNESS, os.path.join(d, "embed_c02"))
+    work = os.path.join(B.SCRATCH, "tmp_c02_work")
+    os.makedirs(work, exist_ok=True)
+    tr = os.path.join(work, "hook.trace")
+    picks = sorted(ctx.rng.sample(range(1, 25), ndumps))
+    sched = "seed:%d:%d" % (ctx.rng.randrange(1, 10000), ctx.rng.choice([61, 97, 211]))
+    env = B.chibi_env(d, {"C02_NO_BOOT_GC": "1", "CHIBI_VERIF_GC": sched, "CHIBI_VERIF_TRACE": tr,
+                          "CHIBI_VERIF_DUMP": ",".join(str(k) for k in picks)})
+    src = os.path.join(HERE, "..", "harness", "c02_prims.scm")
+    r = subprocess.run([emb, src, "/dev/null"], capture_output=True, text=True, env=env, timeout=600)
+    replay = "C02_NO_BOOT_GC=1 CHIBI_VERIF_GC=%s CHIBI_VERIF_TRACE=%s CHIBI_VERIF_DUMP=%s LD_LIBRARY_PATH=%s CHIBI_MODULE_PATH=%s/lib %s %s /dev/null" % (
+        sched, tr, ",".join(str(k) for k in picks), d, d, emb, src)
+    if r.returncode != 0:
+        ctx.violation("schedule:exit-status", input="%s under %s (default variant)" % (src, sched), expected="exit 0", observed="rc=%s %s" % (r.returncode, r.stderr[-300:]), replay=replay)
+        return 0
+    colls, nx = parse_hook_dumps(tr)
+    colls = colls[:4 * ndumps]
+    spec = "10,0,0,8,1,10,8,8,0,0,0,0,0"
+    n = 0
+    reqs = []
+    for c in colls:
+        root, objs = c["pre"]
+        items = []
+        for a, (tag, marked, slots, saves, isctx) in objs.items():
+            items.append("%x:%d:%d:%s:%s" % (a, 1 if isctx else 0, marked, ",".join(["0", "%x" % len(slots)] + ["%x" % v for v in slots]), ",".join("%x" % v for v in saves)))
+        reqs.append("mark 1 %s;%s %x %s" % (spec, spec, root, ";".join(items)))
+    answers = ctx.run_model(exe, reqs) if reqs else []
+    for c, ans in zip(colls, answers):
+        n += 1
+        root, objs = c["pre"]
+        cm = set(a for a, v in c["marked"][1].items() if v[1])
+        ctx.count(1, key=("hook", sched, len(objs), len(cm)), nontrivial=len(objs) > 1000 and len(cm) < len(objs))
+        ctx.cov["traces_validated_against_impl"] += 1
+        # oracle: closure under the dumped slots and saves
+        seen, todo = set(), [root]
+        while todo:
+            a = todo.pop()
+            if a in seen or a not in objs:
+                continue
+            seen.add(a)
+            todo += [v for v in objs[a][2] + objs[a][3] if v != 1 and v not in seen]
+        where = "forced collection %d of %s under %s" % (n, os.path.basename(src), sched)
+        if cm != seen:
+            ctx.violation("mark:not-exactly-reachable", input=where, expected="%d reachable" % len(seen),
+                          observed="%d marked (missed %d, extra %d)" % (len(cm), len(seen - cm), len(cm - seen)), replay=replay)
+        elif ans.startswith("ERR"):
+            ctx.broken("inner-correspondence:hook-mark", "%s: model: %s" % (where, ans[:100]), replay=replay)
+        elif addrset(ans[3:]) != cm:
+            ctx.broken("inner-correspondence:hook-mark", "%s: model marks %d, sexp_mark %d" % (where, len(addrset(ans[3:])), len(cm)), replay=replay)
+        post = set(c["post"][1])
+        if not (cm <= post):
+            ctx.violation("sweep:marked-object-freed", input=where, expected="every marked object survives", observed="%d marked objects gone" % len(cm - post), replay=replay)
+        if n == 1:
+            ctx.sample(dict(kind="inner-hook", schedule=sched, objects=len(objs), marked=len(cm), registered_locals=sum(len(v[3]) for v in objs.values()), refs_outside_heaps=nx))
+    if os.path.exists(tr):
+        os.unlink(tr)
+    return n
+
+
 # ------------------------------------------------------------------------------------------ outer
-def run_prog(d, path, sched=None, early=False, timeout=240):
+def run_prog(d, path, sched=None, early=False, timeout=240, heap=None):
     env = {}
     if sched:
         env["CHIBI_VERIF_GC"] = sched
     if early:
         env["CHIBI_VERIF_GC_EARLY"] = "1"
     try:
-        r = B.run_chibi(d, [path], timeout=timeout, extra_env=env)
+        r = B.run_chibi(d, (["-h", heap] if heap else []) + [path], timeout=timeout, extra_env=env)
         return r.returncode, r.stdout, r.stderr
     except subprocess.TimeoutExpired:
         return "TIMEOUT", "", ""
@@ -406,7 +516,7 @@ def outer(ctx, da, nprog, nsnip, nsched, dense):
                 k0 = ctx.rng.randrange(1, max(2, total))
                 scheds.append("at:" + ",".join(str(k0 + i) for i in range(ctx.rng.choice([8, 64]))))
             elif kind == "seed":
-                scheds.append("seed:%d:%d" % (ctx.rng.randrange(1, 10000), ctx.rng.choice([211, 509] if not ctx.thorough else [29, 61, 127])))
+                scheds.append("seed:%d:%d" % (ctx.rng.randrange(1, 10000), ctx.rng.choice([211, 509] if not ctx.thorough else [61, 127, 211])))
             else:
                 scheds.append("every:%d" % ctx.rng.choice([211, 1009] if not ctx.thorough else [41, 97, 211]))
         if dense:
@@ -431,6 +541,17 @@ def outer(ctx, da, nprog, nsnip, nsched, dense):
                     i = next((i for i, (x, y) in enumerate(zip(l0, l1)) if x != y), min(len(l0), len(l1)))
                     obs = "first differing output line %d: %r vs unforced %r" % (i, l1[i:i + 1], l0[i:i + 1])
                 ctx.violation(sig, input="%s under CHIBI_VERIF_GC=%s" % (src, s), expected="same output and exit status as the unforced run", observed=obs, replay=replay)
+        # initial heap sizes from small to default: natural collections and heap growth at different points
+        for hs in (HEAP_SIZES if ctx.thorough else ctx.rng.sample(HEAP_SIZES, 2)):
+            rc, out, err = run_prog(da, src, heap=hs)
+            nruns += 1
+            ctx.count(1, key=(hashlib.sha1(text.encode()).hexdigest(), "heap", hs), nontrivial=True)
+            if rc != rc0 or out != out0:
+                top = asan_top(err)
+                ctx.violation("heap-size:%s" % ("asan:" + top[0] + ":" + "/".join(top[1][:2]) if top else "output-or-status"),
+                              input="%s with initial heap -h %s" % (src, hs), expected="same output and exit status as with the default heap",
+                              observed=(str(top) if top else "rc=%s (default heap: %s) %s" % (rc, rc0, err[-300:])),
+                              replay="cd %s && LD_LIBRARY_PATH=. CHIBI_MODULE_PATH=lib CHIBI_IGNORE_SYSTEM_PATH=1 ASAN_OPTIONS=detect_leaks=0 ./chibi-scheme -h %s %s" % (da, hs, src))
         if len(ctx.cov["samples"]) < 6:
             ctx.sample(dict(kind="outer", program=name, allocations=total, schedules=scheds[:4], output_lines=out0.count("\n")))
     return nruns
@@ -516,13 +637,15 @@ def run(ctx):
     if exe is None:
         return
     if ctx.thorough:
-        ni, si, no, so, ns, dense = 12, 8, 10, 6, 10, None
+        ni, si, no, so, ns, dense = 12, 8, 6, 6, 8, None
     else:
         ni, si, no, so, ns, dense = 2, 5, 3, 4, 3, None
     import time
     t0 = time.time()
     nc = inner(ctx, d, exe, facts, ni, si, only_noimport=partial)
+    nh = 0 if partial else inner_hook(ctx, d, exe, 8 if ctx.thorough else 2)
     t1 = time.time()
+    ctx.note("inner: %d collections at (verif-gc)/C-level points (raw words), %d forced collections at arbitrary allocation points (hook dumps)" % (nc, nh))
     if partial:
         return
     da = ctx.build("asan")
@@ -537,6 +660,7 @@ def run(ctx):
     nd = outer_dense(ctx, da, dscheds, [])
     t4 = time.time()
     ctx.note("timing: inner %d collections %.0fs; asan build %.0fs; outer %d runs %.0fs; dense %d runs %.0fs" % (nc, t1 - t0, t2 - t1, nr, t3 - t2, nd, t4 - t3))
+    _tiny_heap_probe(ctx, da)
     ctx.assume("weak references, ephemerons and finalizers are outside this model (C16); the free list and heap shape are C10's")
     ctx.assume("the root-registration discipline of C callers (sexp_gc_preserve) is not a theorem: it is explored by the forced-collection schedules only")
     ctx.assume("the mark stack (1024 inline entries, then malloc without a NULL check, gc.c:238) is an unbounded list in the model")
@@ -563,6 +687,50 @@ def _dense(ctx, da):
                               replay="cd %s && CHIBI_VERIF_GC=%s LD_LIBRARY_PATH=. CHIBI_MODULE_PATH=lib CHIBI_IGNORE_SYSTEM_PATH=1 ./chibi-scheme %s" % (da, s, src))
 
 
+def _tiny_heap_probe(ctx, da):
+    """F-C02-2 (see notes/C02.md): an initial heap smaller than about 40k makes context bootstrap collect
+    with an incomplete context and crash.  Reported as a violation only when known_findings.json lists
+    the signature (then it is printed as KNOWN-FINDING while it reproduces); otherwise noted."""
+    import json
+    sig = "heap-size:bootstrap-crash"
+    try:
+        r = B.run_chibi(da, ["-h", "16k", "-q", "-e", "(begin (write (+ 1 2)) (newline))"], timeout=60)
+        bad = r.returncode != 0 or r.stdout.strip() != "3"
+    except subprocess.TimeoutExpired:
+        bad = True
+    if not bad:
+        return
+    try:
+        kf = json.load(open(os.path.join(HERE, "..", "known_findings.json")))
+        listed = any(f.get("sig") == sig and f.get("property") == "C02" for f in kf.get("findings", []))
+    except Exception:
+        listed = False
+    if listed:
+        ctx.violation(sig, input="chibi-scheme -h 16k -q -e '(begin (write (+ 1 2)) (newline))'", expected="3 (or a clean out-of-memory error)",
+                      observed="crash in sexp_mark <- sexp_gc <- sexp_alloc <- sexp_bootstrap_context",
+                      replay="cd %s && LD_LIBRARY_PATH=. CHIBI_MODULE_PATH=lib ./chibi-scheme -h 16k -q -e '(begin (write (+ 1 2)) (newline))'" % da)
+    else:
+        ctx.note("finding heap-size:bootstrap-crash reproduces (chibi-scheme -h 16k crashes during context bootstrap); it is not listed in known_findings.json, see notes/C02.md (e)3")
+
+
 def _layout_search(ctx, d, facts):
     """the generated layout obligations failed: look for a program on which the missing reference loses data"""
     pass
+
+
+def replay(ctx, data):
+    """./check C02 --replay evidence/replay/C02-n.json : re-run the recorded failing commands"""
+    rc = 0
+    for case in data.get("failing_cases", []):
+        cmd = case.get("replay")
+        if not cmd:
+            continue
+        print("replaying: " + cmd)
+        r = subprocess.run(cmd, shell=True, capture_output=True, text=True, timeout=1800)
+        print("exit status %s\n%s\n%s" % (r.returncode, r.stdout[-1500:], r.stderr[-2500:]))
+        print("expected: %s\nobserved at check time: %s" % (case.get("expected"), case.get("observed")))
+        rc = 1
+    for u in data.get("no_longer_checks", []):
+        print("no longer checks: %s: %s" % (u.get("name"), str(u.get("reason"))[:800]))
+        rc = 1
+    return rc
